@@ -338,48 +338,62 @@ func discharge(o *Obligation, prelude, weak string, opts solveOpts, idx int, int
 		// quick tier: a short attempt with the first solver, then all solvers race (the obligation is
 		// decided by the first decisive answer; slow proofs are the unstable ones, a second engine
 		// usually decides them at once)
-		short := 3
-		if opts.timeoutS < short {
-			short = opts.timeoutS
+		// staggered race: the first solver starts at once with the full budget; the others join after
+		// a few seconds if it has not answered (most obligations are decided in milliseconds)
+		type res struct {
+			name, v, out string
+			d            float64
 		}
-		v, out, d := runSolver(solvers[0], file, short)
-		o.Time += d
-		if v == "unsat" || v == "sat" {
-			o.Verdict, o.Solver = v, solvers[0].name
-		} else {
-			type res struct {
-				name, v, out string
-				d            float64
-			}
-			ctx, cancel := context.WithCancel(context.Background())
-			ch := make(chan res, len(solvers))
-			for _, sd := range solvers {
-				sd := sd
-				go func() {
-					v, out, d := runSolverCtx(ctx, sd, file, opts.timeoutS)
-					ch <- res{sd.name, v, out, d}
-				}()
-			}
-			last := res{v: v, out: out}
-			for i := 0; i < len(solvers); i++ {
-				r := <-ch
+		ctx, cancel := context.WithCancel(context.Background())
+		ch := make(chan res, len(solvers))
+		run := func(sd solverDef) {
+			v, out, d := runSolverCtx(ctx, sd, file, opts.timeoutS)
+			ch <- res{sd.name, v, out, d}
+		}
+		go run(solvers[0])
+		started := 1
+		timer := time.NewTimer(3 * time.Second)
+		got := 0
+		var last res
+		for got < started || started < len(solvers) {
+			select {
+			case <-timer.C:
+				for _, sd := range solvers[1:] {
+					go run(sd)
+					started++
+				}
+			case r := <-ch:
+				got++
 				if r.v == "unsat" || r.v == "sat" {
 					o.Verdict, o.Solver = r.v, r.name
 					o.Time += r.d
-					last = r
+					got = len(solvers) + 1
+					started = len(solvers)
 					break
 				}
-				if r.d > last.d {
+				if r.d >= last.d {
 					last = r
 				}
-			}
-			cancel()
-			if o.Verdict == "" {
-				o.Time += last.d
-				o.Verdict = last.v
-				if last.v == "error" {
-					o.Model = last.out
+				if got == 1 && started == 1 {
+					// the first solver gave up early: start the others now
+					timer.Stop()
+					for _, sd := range solvers[1:] {
+						go run(sd)
+						started++
+					}
 				}
+			}
+			if o.Verdict != "" {
+				break
+			}
+		}
+		timer.Stop()
+		cancel()
+		if o.Verdict == "" {
+			o.Time += last.d
+			o.Verdict = last.v
+			if last.v == "error" {
+				o.Model = last.out
 			}
 		}
 	}
